@@ -219,6 +219,31 @@ Theorem c11_parallel_ignores_policy :
     = exec_par_ckpt sh readdir H avail clock (mk_cfg en p2 auto max) fs term chain partitions.
 Proof. exact par_ignores_policy. Qed.
 
+
+(* once a checkpoint has been saved at time t and the interval does not elapse during the rest of the run,
+   the loop of the sequential engine under TimeInterval(s) writes nothing more: manager and directory
+   are at the end what they were (the node arms `arm` are arbitrary) *)
+Theorem c11_time_interval_pending_writes_nothing :
+  forall readdir H pct clock arm c pid total term s t,
+    c_policy c = Store.TimeInterval s ->
+    forall chain i idx buf d,
+      interval_pending clock s t idx (idx + List.length chain) ->
+      snd (seq_ckpt_loop readdir H pct clock arm c pid total term i idx chain buf (mk_mgr (Some t) d))
+      = mk_mgr (Some t) d.
+Proof. exact time_pending_loop. Qed.
+
+(* .. and under Hybrid { barriers: true, interval_secs: s } the rest of the run is the run under
+   AfterEveryBarrier: same outcome, same saves, same directory (u64::MAX = "barriers only") *)
+Theorem c11_hybrid_pending_is_after_every_barrier :
+  forall readdir H pct clock arm en s auto max pid total term,
+    forall chain i idx buf m t,
+      (forall j, (idx <= j < idx + List.length chain)%nat ->
+                 interval_pending clock s (clock j 2%nat) idx (idx + List.length chain)) ->
+      m_last m = Some t -> interval_pending clock s t idx (idx + List.length chain) ->
+      seq_ckpt_loop readdir H pct clock arm (mk_cfg en (Store.Hybrid true s) auto max) pid total term i idx chain buf m
+      = seq_ckpt_loop readdir H pct clock arm (mk_cfg en Store.AfterEveryBarrier auto max) pid total term i idx chain buf m.
+Proof. exact hybrid_pending_loop. Qed.
+
 (* ================================================================== non-vacuity examples *)
 Open Scope Z_scope.
 Definition exH (x : bytes) : bytes :=
@@ -461,3 +486,20 @@ Example ex_policies_extreme :
      = exec_par_ckpt id_sh rev_listing exH ex_avail ex_clock (ex_cfg (Store.EveryNNodes 0) (Some 1)) None
                      (term_tag ex_src ex_nested) (plan ex_src ex_nested) 3.
 Proof. vm_compute. repeat split; reflexivity. Qed.
+
+(* c11_time_interval_pending_writes_nothing / c11_hybrid_pending_is_after_every_barrier: on the example
+   clock (one millisecond per node) the hypotheses hold for the nodes 1..5 of the 6-node plan after the save
+   at node 0, for one hour and for u64::MAX seconds; accordingly the whole run saves node 0 only, resp.
+   node 0 and then exactly what AfterEveryBarrier saves *)
+Example ex_interval_pending :
+  List.length ex_chain_crash = 6%nat
+  /\ interval_pending ex_clock 3600 (ex_clock 0 2) 1 6
+  /\ (forall j, (1 <= j < 6)%nat -> interval_pending ex_clock u64max (ex_clock j 2) 1 6)
+  /\ saved_indices (Store.TimeInterval 3600) = [0]
+  /\ saved_indices (Store.Hybrid true u64max) = saved_indices Store.AfterEveryBarrier ++ [0].
+Proof.
+  split; [vm_compute; reflexivity|]. split; [|split].
+  - intros j Hj. right. unfold ex_clock. lia.
+  - intros j Hj k Hk. right. unfold ex_clock, u64max. lia.
+  - vm_compute. split; reflexivity.
+Qed.
